@@ -666,7 +666,8 @@ def cast(op,v,t1,t2):
 def parse_cstr(txt):
     m=re.match(r'c"(.*)"$',txt,re.S); sx=m.group(1); out=[]; i=0
     while i<len(sx):
-        if sx[i]=='\\': out.append(int(sx[i+1:i+3],16)); i+=3
+        if sx[i]=='\\' and sx[i+1]=='\\': out.append(0x5c); i+=2
+        elif sx[i]=='\\': out.append(int(sx[i+1:i+3],16)); i+=3
         else: out.append(ord(sx[i])); i+=1
     return out
 
